@@ -217,12 +217,12 @@ def select_and_load_dataset(
     natom = len(phonon.supercell)
     _dataset = None
     _force_sets_filename = None
-    if forces_in_dataset(dataset):
-        _dataset = dataset
-        _force_sets_filename = phonopy_yaml_filename
-    elif force_sets_filename is not None:
+    if force_sets_filename is not None:
         _dataset = parse_FORCE_SETS(natom=natom, filename=force_sets_filename)
         _force_sets_filename = force_sets_filename
+    elif forces_in_dataset(dataset):
+        _dataset = dataset
+        _force_sets_filename = phonopy_yaml_filename
     elif pathlib.Path("FORCE_SETS").exists():
         _dataset = parse_FORCE_SETS(natom=natom)
         _force_sets_filename = "FORCE_SETS"
@@ -249,10 +249,7 @@ def select_and_extract_force_constants(
     """Set force constants."""
     _fc = None
     _force_constants_filename = None
-    if fc is not None:
-        _fc = fc
-        _force_constants_filename = phonopy_yaml_filename
-    elif force_constants_filename is not None:
+    if force_constants_filename is not None:
         _fc = _read_force_constants_file(
             phonon,
             force_constants_filename,
@@ -260,6 +257,9 @@ def select_and_extract_force_constants(
             log_level=log_level,
         )
         _force_constants_filename = force_constants_filename
+    elif fc is not None:
+        _fc = fc
+        _force_constants_filename = phonopy_yaml_filename
     elif phonon.force_constants is None:
         # unless provided these from phonopy_yaml.
         if pathlib.Path("FORCE_CONSTANTS").exists():
